@@ -11,6 +11,7 @@ import (
 	"github.com/klev-dev/klevdb/pkg/index"
 	"github.com/klev-dev/klevdb/pkg/message"
 	"github.com/klev-dev/klevdb/pkg/segment"
+	"github.com/klev-dev/klevdb/pkg/vhook"
 )
 
 type writer struct {
@@ -97,6 +98,7 @@ func (w *writer) Publish(msgs []message.Message) (int64, error) {
 		}
 		indexTime = items[i].Timestamp
 	}
+	vhook.Pause("publish.written")
 
 	return w.index.append(items), nil
 }
